@@ -14,6 +14,8 @@ import Midgard.Proofs.RinexObs
 import Midgard.Proofs.Rinex3ObsRecords
 import Midgard.Proofs.Rinex3ObsText
 import Midgard.Proofs.Rinex3ObsPost
+import Midgard.Proofs.Rinex3ObsHeader
+import Midgard.Spec.Rinex2ObsFile
 
 namespace Midgard.Props.C11
 open Midgard.Text Midgard.FixedCol Midgard.ChainParser Midgard.RinexObs Midgard.Decimal
@@ -439,7 +441,8 @@ example : tiny3Out.map (·.1.length) = some 3 ∧
 /-! ### RINEX 3: the file level
 
 `Spec/Rinex3ObsFile.lean`: an abstract file `F` (header records in file order incl. `SYS / # / OBS TYPES` with its
-continuation lines, epochs with flag and receiver clock offset, one record per satellite with value / LLI / SSI per
+continuation lines, epochs with flag and receiver clock offset — event epochs with their special records included, which the parser
+ignores —, one record per satellite with value / LLI / SSI per
 type of its system, blank = missing; every line as formatted, right-stripped or filled to 80 columns), its writer
 `render`, the decidable `wf`, and `expected rate F`: the header handlers applied to the header's *values*, then one
 column per observation type of the file with one entry per (kept epoch, satellite) in file order.
@@ -455,24 +458,34 @@ observation type of the file as a column with one entry per (epoch on the sampli
 value, LLI, SSI printed in the satellite's record for the types of its system (blank or zero = absent), absent for
 the types the system does not have — and epoch string, flag, receiver clock offset, station, system, satellite,
 satellite number per row; all columns of equal length.
-Partial: what the data section needs from the header (the list of all types, the marker name, the per-system type
-lists, empty columns: `hdrOk`) is a hypothesis *evaluated* on the header's values — the full statement is the same
-without `hh` (header state machine at value level: `Meta.set` frame lemmas for every header handler). -/
-theorem file_roundtrip3_partial (rate : Option Rat) (F : File) (hwf : F.wf = true) (hh : hdrOk rate F.hdr = true) :
+The header part is proved at value level (`Proofs/Rinex3ObsMeta|Handlers|Header.lean`): every handler of the plain
+record kinds writes only `meta` keys the data section does not read, `MARKER NAME` sets the station, and a
+`SYS / # / OBS TYPES` record with its continuation lines declares its types in order for its system. -/
+theorem file_roundtrip3 (rate : Option Rat) (F : File) (hwf : F.wf = true) :
     readData headerParser obsParser resetCache (fileLines F) true 0 { rate := rate } = expected rate F :=
-  file_of_hdrOk rate F hwf hh
+  file_roundtrip rate F hwf
+
+/-- what the data section finds in the header state of a well-formed file: the list of all types, the sampling rate,
+the marker name, the type list of every declared system, empty columns -/
+theorem header_state3 (rate : Option Rat) (F : File) (hwf : F.wf = true) (H : State) (hH : headerState rate F.hdr = .ok H) :
+    H.obstypesAll = allTypes F.hdr ∧ H.rate = rate ∧
+    (∃ m, markerOf F.hdr = some m ∧ H.metaD.get [key "marker_name"] = some (.text m)) ∧
+    (∀ st ∈ sysTypes F.hdr, H.metaD.get [key "obstypes", st.1] = some (.list st.2)) ∧
+    H.data = expectedData rate { F with epochs := [] } H.data := by
+  have h := hdrFacts rate F hwf H hH
+  exact ⟨h.htypes, h.hrate, h.hmarker, h.hsys, h.hdata⟩
 
 /-- the text of a rendered well-formed file splits into the rendered lines (no cell contains a line break) -/
 theorem lines_of_render3 (F : File) (hwf : F.wf = true) : ChainParser.fileLines (render F) = fileLines F :=
   lines_render F hwf
 
 /-- **`Rinex3Parser(text of F, sampling_rate).parse()`** is `expected rate F` followed by the post-processors -/
-theorem parse_render3_partial (rate : Option Rat) (F : File) (hwf : F.wf = true) (hh : hdrOk rate F.hdr = true) :
+theorem parse_render3 (rate : Option Rat) (F : File) (hwf : F.wf = true) :
     parseText rate (render F) = match expected rate F with
       | .ok s => finish s
       | .error e => .error e := by
   unfold parseText parseLines
-  rw [lines_render F hwf, file_of_hdrOk rate F hwf hh]
+  rw [lines_render F hwf, file_roundtrip rate F hwf]
   cases expected rate F <;> rfl
 
 /-- the columns of `expected` all have one entry per row -/
@@ -499,7 +512,8 @@ theorem postprocessors_keep_rows (s s' : State) (h : finish s = .ok s') :
     rowCols s'.data = rowCols s.data ∧ s'.data.timeMicros = s.data.timeMicros ∧ s'.data.pos = s.data.pos :=
   finish_data s s' h
 
-/-- a small file: two systems with different type lists, a blank observation, a zero observation, epoch flag 1 -/
+/-- a small file: two systems with different type lists, a blank observation, a zero observation, epoch flag 1, an
+event epoch (flag 4) with two special records -/
 def tinyF : File :=
   let c (t : String) (v : Option Rat) : Cell := ⟨t.toList, v⟩
   let i (t : String) (v : Int) : IntCell := ⟨t.toList, v⟩
@@ -508,15 +522,18 @@ def tinyF : File :=
             .plain "TFIRST" ["2018".toList, "2".toList, "1".toList, "0".toList, "0".toList, "0.0000000".toList, "GPS".toList]],
     epochs := [
       { year := i "2018" 2018, month := i "2" 2, day := i "1" 1, hour := i "0" 0, minute := i "0" 0, second := ⟨"0.0000000".toList, 0⟩,
-        flag := i "0" 0, numSat := "2".toList, clk := c "" none,
+        flag := i "0" 0, numSat := "2".toList, clk := c "" none, special := [],
         sats := [⟨"G07".toList, [⟨c "23494924.453" (some (23494924453 / 1000)), c "" none, c "" none⟩, ⟨c "" none, c "" none, c "7" (some 7)⟩]⟩,
                  ⟨"E08".toList, [⟨c ".000" none, c "0" none, c "5" (some 5)⟩]⟩] },
       { year := i "2018" 2018, month := i "2" 2, day := i "1" 1, hour := i "0" 0, minute := i "0" 0, second := ⟨"15.0000000".toList, 15⟩,
-        flag := i "1" 1, numSat := "1".toList, clk := c "-.000000123456" (some (-123456 / 1000000000000)),
-        sats := [⟨"E08".toList, [⟨c "26016567.422" (some (26016567422 / 1000)), c "" none, c "" none⟩]⟩] }],
+        flag := i "1" 1, numSat := "1".toList, clk := c "-.000000123456" (some (-123456 / 1000000000000)), special := [],
+        sats := [⟨"E08".toList, [⟨c "26016567.422" (some (26016567422 / 1000)), c "" none, c "" none⟩]⟩] },
+      { year := i "2018" 2018, month := i "2" 2, day := i "1" 1, hour := i "0" 0, minute := i "0" 0, second := ⟨"20.0000000".toList, 20⟩,
+        flag := i "4" 4, numSat := "2".toList, clk := c "" none,
+        special := [("COM", ["2018 antenna moved".toList]), ("MNAME", ["NEW1".toList])], sats := [] }],
     style := .stripped }
 
-example : tinyF.wf = true ∧ hdrOk none tinyF.hdr = true ∧ hdrOk (some 30) tinyF.hdr = true := by decide +kernel
+example : tinyF.wf = true := by decide +kernel
 
 example : (rows none tinyF).length = 3 ∧ (rows (some 30) tinyF).length = 2 ∧
     ((expected (some 30) tinyF).toOption.map fun s => s.data.satellite) = some ["G07".toList, "E08".toList] ∧
@@ -527,6 +544,43 @@ example : (rows none tinyF).length = 3 ∧ (rows (some 30) tinyF).length = 2 ∧
   decide +kernel
 
 end File3
+
+/-! ### RINEX 2: the file level — measured, not proved
+
+`Spec/Rinex2ObsFile.lean` gives the abstract RINEX 2 file (header records incl. `# / TYPES OF OBSERV` continuation,
+epochs with flag, satellite-list continuation lines beyond 12 satellites, five observations per line, all-blank
+lines), its writer, `wf` and `expected`.  The statement `wf F → readData … (fileLines F) = expected rate F` is
+**not proved**; the driver evaluates this instance on every generated file (`c11 file2`), the rendered text is
+compared byte for byte with the independent writer and `expected` with the real parser.  One instance, evaluated by
+the kernel (seven types = two lines per satellite, the second line of the first satellite all blank): -/
+
+section File2
+open Midgard.Spec.Rinex2ObsFile Midgard.Rinex2Obs
+open Midgard.Spec.Rinex3ObsFile (Cell IntCell NumCell Obs)
+
+def tiny2F : Midgard.Spec.Rinex2ObsFile.File :=
+  let c (t : String) (v : Option Rat) : Cell := ⟨t.toList, v⟩
+  let i (t : String) (v : Int) : IntCell := ⟨t.toList, v⟩
+  let b : Obs := ⟨c "" none, c "" none, c "" none⟩
+  let o (t : String) (v : Rat) : Obs := ⟨c t (some v), c "" none, c "" none⟩
+  { hdr := [("VER2", ["2.11".toList, "O".toList, "M".toList]), ("MNAME", ["TRDS".toList]),
+            ("TYPES2", ["7", "C1", "P2", "L1", "L2", "D1", "S1", "S2", "", ""].map String.toList),
+            ("TFIRST", ["2018", "2", "1", "0", "0", "0.0000000", "GPS"].map String.toList)],
+    epochs := [
+      { yy := i "18" 18, month := i "2" 2, day := i "1" 1, hour := i "0" 0, minute := i "0" 0, second := ⟨"30.0000000".toList, 30⟩,
+        flag := i "0" 0, numSat := "2".toList, clk := c "" none,
+        sats := [⟨"G07".toList, [o "24236245.742" (24236245742 / 1000), o "24236247.152" (24236247152 / 1000), b, b, b, b, b]⟩,
+                 ⟨" 21".toList, [o "21119353.719" (21119353719 / 1000), b, b, b, o "-1784.992" (-1784992 / 1000), o "49.300" (493 / 10), b]⟩] }],
+    style := .stripped }
+
+example : tiny2F.wf = true ∧
+    (readData headerParser obsParser resetCache (Midgard.Spec.Rinex2ObsFile.fileLines tiny2F) true 0 {}).toOption =
+      (Midgard.Spec.Rinex2ObsFile.expected none tiny2F).toOption ∧
+    ((Midgard.Spec.Rinex2ObsFile.expected none tiny2F).toOption.map fun s => (s.data.satellite, s.data.time)) =
+      some (["G07".toList, "G21".toList], ["2018-02-01T00:00:30.0000000".toList, "2018-02-01T00:00:30.0000000".toList]) := by
+  decide +kernel
+
+end File2
 
 end Midgard.Props.C11
 
@@ -553,8 +607,9 @@ end Midgard.Props.C11
 #print axioms Midgard.Props.C11.zip_fst_of_length
 #print axioms Midgard.Props.C11.obsTriples_length
 #print axioms Midgard.Props.C11.obs_columns_aligned
-#print axioms Midgard.Props.C11.file_roundtrip3_partial
+#print axioms Midgard.Props.C11.file_roundtrip3
+#print axioms Midgard.Props.C11.header_state3
 #print axioms Midgard.Props.C11.lines_of_render3
-#print axioms Midgard.Props.C11.parse_render3_partial
+#print axioms Midgard.Props.C11.parse_render3
 #print axioms Midgard.Props.C11.expected_columns_aligned
 #print axioms Midgard.Props.C11.postprocessors_keep_rows
